@@ -38,11 +38,12 @@ def test_stmt(t: T.Dict[str, T.Any]) -> str:
     return f"test({q(t['name'])}, sh, {', '.join(kw)})\n"
 
 
-def write_project(root: str, tests: T.Sequence[T.Dict[str, T.Any]], setups: T.Sequence[T.Dict[str, T.Any]] = ()) -> T.Tuple[str, str]:
+def write_project(root: str, tests: T.Sequence[T.Dict[str, T.Any]], setups: T.Sequence[T.Dict[str, T.Any]] = (),
+                  top_raw: T.Optional[str] = None) -> T.Tuple[str, str]:
     sd = os.path.join(root, 'src')
     bd = os.path.join(root, 'bd')
     os.makedirs(sd)
-    top = [f"project({q(TOP)}, meson_version: '>=1.0.0')\n", "sh = find_program('sh')\n"]
+    top = [f"project({q(top_raw or TOP)}, meson_version: '>=1.0.0')\n", "sh = find_program('sh')\n"]
     for su in setups:
         kw = []
         if su.get('tmult') is not None:
@@ -108,15 +109,20 @@ def jobs_env(run: T.Dict[str, T.Any]) -> T.Dict[str, str]:
 
 def selection_args(run: T.Dict[str, T.Any]) -> T.List[str]:
     a: T.List[str] = []
+    raw, tid = run.get('top_raw'), run.get('top_id')
+
+    def by_name(s_: str) -> str:
+        # suites are spoken of by their (sanitised) prefix, tests and setups by the project's name
+        return raw + s_[len(tid):] if raw and tid and s_.startswith(tid + ':') else s_
     if run.get('setup'):
-        a += ['--setup', f"{TOP}:{run['setup']}"]
+        a += ['--setup', f"{raw or TOP}:{run['setup']}"]
     for s in run.get('suites') or []:
         a += ['--suite', s]
     for s in run.get('nosuites') or []:
         a += ['--no-suite', s]
     for s in run.get('exclude') or []:
-        a += ['--exclude', s]
-    a += list(run.get('names') or [])
+        a += ['--exclude', by_name(s)]
+    a += [by_name(s) for s in run.get('names') or []]
     return a
 
 
